@@ -103,3 +103,15 @@ __CPROVER_ensures(post_string(self) && __CPROVER_return_value == self)
 RELEASED_IF_LAST(self)
 STRING_FRAME(self)
 ;
+_Bool str_find_post(const struct String* a, char c, const char* ret);
+_Bool str_findLast_post(const struct String* a, char c, const char* ret);
+const char* c_String_find_char(const struct String* self, char c)
+__CPROVER_requires(wf_String(self))
+__CPROVER_ensures(str_find_post(self, c, __CPROVER_return_value))
+__CPROVER_assigns()
+;
+const char* c_String_findLast_char(const struct String* self, char c)
+__CPROVER_requires(wf_String(self))
+__CPROVER_ensures(str_findLast_post(self, c, __CPROVER_return_value))
+__CPROVER_assigns()
+;
